@@ -377,6 +377,24 @@ def run(ctx):
         except Exception as e:
             ctx.violation("ivp/adaptive/single-time", "%s with a single requested time raised %s: %s (the fixed-step methods return y0)" % (method, type(e).__name__, str(e)[:80]), {"method": method})
     rej = ctx.validate_traces("Trace_AdaptiveRK.tla", "Trace_AdaptiveRK.cfg", traces, shards=12)
+
+    def m_field(name, val, cond=lambda e: True):
+        def m(t):
+            for e in t["ev"]:
+                if e["a"] == "try" and cond(e) and e.get(name) != val:
+                    e[name] = val
+                    return t
+        return m
+
+    def m_drop_landing(t):
+        ls = [j for j, e in enumerate(t["ev"]) if e["a"] == "try" and e["accept"] and e["over"]]
+        if ls:
+            del t["ev"][ls[0]]                               # one requested time is never reached
+            return t
+    ctx.binding_selftest("Trace_AdaptiveRK.tla", "Trace_AdaptiveRK.cfg", traces, rej,
+                         [("stage not a step of the scheme", m_field("stage_ok", False)), ("past the target", m_field("not_past", False)),
+                          ("landing inexact", m_field("landed_exact", False, lambda e: e["accept"] and e["over"])),
+                          ("rejected step grows", m_field("grow", "up", lambda e: not e["accept"])), ("landing missing", m_drop_landing)])
     bytid = {t["tid"]: t for t in traces}
     for tid_, matched, total in rej:
         t_ = bytid[tid_]
